@@ -186,8 +186,13 @@ def _write(pdf, path, nfiles, shuffle_files):
     if shuffle_files:
         # unsorted file statistics: write the partitions in a different order than the index order
         n = len(pdf)
-        step = -(-n // nfiles)
-        chunks = [pdf.iloc[i : i + step] for i in range(0, n, step)]
+        # files of different sizes (statistics-based lengths must follow the partition order)
+        sizes = [3 + 2 * i for i in range(nfiles)]
+        sizes[-1] = n - sum(sizes[:-1])
+        bounds = [0]
+        for sz in sizes:
+            bounds.append(bounds[-1] + sz)
+        chunks = [pdf.iloc[bounds[i] : bounds[i + 1]] for i in range(nfiles)]
         order = list(range(len(chunks)))
         order = order[1:] + order[:1]
         os.makedirs(path, exist_ok=True)
@@ -236,6 +241,19 @@ def run_case(case):
                 q, want = q[num] + 1, want[num] + 1
             elif want.dtype != object:
                 q, want = q + 1, want + 1
+        if case["kind"] == "len_part":
+            o = q.optimize() if hasattr(q, "optimize") else q
+            for P in case["Ps"]:
+                if max(P) >= r.npartitions:
+                    continue
+                sub = r.partitions[P][case["col"]] if case.get("col") else r.partitions[P]
+                got, want_n = len(sub), len(sub.compute())
+                if got != want_n:
+                    return f"len(partitions[{P}]{'.' + case['col'] if case.get('col') else ''}) = {got}, the computed object has {want_n} rows"
+                sz, want_sz = int(sub.size.compute()) if hasattr(sub.size, "compute") else int(sub.size), int(sub.compute().size)
+                if sz != want_sz:
+                    return f".size of partitions[{P}] = {sz}, computed {want_sz}"
+            return None
         if case["kind"] == "len":
             got = len(q)
             if got != len(want):
@@ -296,8 +314,20 @@ def run_guard_case(case):
         os.makedirs(wr, exist_ok=True)
         r = dx.read_parquet(rd)
         must_refuse = case["write"] == case["read"][: len(case["write"])]
+        shape = case.get("shape", "full")
+        if shape == "proj_arith":
+            r = r[["a", "b"]] * 2
+        elif shape == "filter_proj":
+            r = r[r.b > 0][["a", "c"]]
+        elif shape == "assign":
+            r = r.assign(z=r.c + 1)
+        if case.get("fs") == "arrow":
+            import dask_expr as dx2
+
+            base = dx2.read_parquet(rd, filesystem="arrow")
+            r = base[["a", "b"]] * 2 if shape == "proj_arith" else base
         try:
-            (r + 0 if False else r).to_parquet(wr, overwrite=True)
+            r.to_parquet(wr, overwrite=True)
             refused = False
         except ValueError as ex:
             refused = "overwrite" in str(ex).lower()
@@ -305,7 +335,9 @@ def run_guard_case(case):
             return f"overwriting {case['write']} while reading {case['read']} was not refused"
         if not must_refuse and refused:
             return f"writing to {case['write']} was refused although {case['read']} is not inside it"
-        if not must_refuse:
+        if must_refuse and not os.path.exists(os.path.join(rd)):
+            return "the dataset being read was deleted"
+        if not must_refuse and shape == "full":
             back = dx.read_parquet(wr).compute()
             if not e2e.same(back, pdf):
                 return "data written next to the source differs"
@@ -336,12 +368,25 @@ def _cases(ctx, broken):
                     cases.append({"kind": "len", "table": table, "fs": fs, "nfiles": nfiles, "calc_div": calc, "cols": ["a"]})
                     cases.append({"kind": "len", "table": table, "fs": fs, "nfiles": nfiles, "calc_div": calc, "pred": "b_le"})
                     cases.append({"kind": "len", "table": table, "fs": fs, "nfiles": nfiles, "calc_div": calc, "user_filters": True})
+    lenparts = []
+    for fs in ("fsspec", "arrow"):
+        for calc in (False, True):
+            for shuf in (False, True):
+                lenparts.append({"kind": "len_part", "table": "named", "fs": fs, "nfiles": 4, "calc_div": calc, "shuffle_files": shuf,
+                                 "col": "a", "Ps": [[0], [1], [3], [1, 2], [2, 0], [0, 0]]})
+                lenparts.append({"kind": "len_part", "table": "named", "fs": fs, "nfiles": 4, "calc_div": calc, "shuffle_files": shuf,
+                                 "col": None, "Ps": [[0], [2], [1, 3]]})
     for fs in ("fsspec", "arrow"):
         for calc in (False, True):
             cases.append({"kind": "roundtrip", "table": "named", "fs": fs, "nfiles": 4, "calc_div": calc, "shuffle_files": True})
             cases.append({"kind": "proj", "table": "named", "fs": fs, "nfiles": 4, "calc_div": calc, "shuffle_files": True, "cols": ["a"], "elemwise": True})
             cases.append({"kind": "filter", "table": "named", "fs": fs, "nfiles": 4, "calc_div": calc, "shuffle_files": True, "pred": "c_ge", "cols": None})
     guards = [
+        {"kind": "guard", "read": ["d", "a"], "write": ["d", "a"], "shape": "proj_arith"},
+        {"kind": "guard", "read": ["d", "a"], "write": ["d", "a"], "shape": "filter_proj"},
+        {"kind": "guard", "read": ["d", "a"], "write": ["d", "a"], "shape": "assign"},
+        {"kind": "guard", "read": ["d", "a"], "write": ["d", "a"], "shape": "proj_arith", "fs": "arrow"},
+        {"kind": "guard", "read": ["d", "a"], "write": ["d"], "shape": "proj_arith"},
         {"kind": "guard", "read": ["d", "a"], "write": ["d", "a"]},
         {"kind": "guard", "read": ["d", "a"], "write": ["d"]},
         {"kind": "guard", "read": ["d", "ab"], "write": ["d", "a"]},
@@ -352,8 +397,8 @@ def _cases(ctx, broken):
     if ctx.quick:
         must = [c for c in cases if c.get("elemwise") and c["kind"] == "proj" and c["fs"] == "arrow" and c["nfiles"] == 4][:6]
         must += [c for c in cases if c.get("pred") in ("a_ne", "or_ne") and c["fs"] == "arrow"][:6]
-        cases = must + cases[:110]
-    return guards + cases
+        cases = must + cases[:100]
+    return guards + lenparts + cases
 
 
 def _sig(case):
